@@ -18,6 +18,7 @@ import ClvmProofs.Lemmas.RefUnknown
 import ClvmProofs.Lemmas.RefPath
 import ClvmProofs.Lemmas.RefMachine
 import ClvmProofs.Lemmas.RefSim
+import ClvmProofs.Lemmas.RefNarrow
 
 namespace Clvm.Props.C01
 open Clvm Clvm.Interp Clvm.Ref
@@ -249,35 +250,99 @@ theorem C01_main_partial (lenient : Bool) (prog env : Tree) (h1 : OneStep prog) 
     (hr : adaptedRun lenient (fuel' + 2) prog env budget = some ro) : SameOutcome mo ro :=
   one_step_agree lenient prog env h1 budget fuel fuel' mo ro hm hr
 
-/-- **`C01_main_lenient_partial`**: whole programs, every 64-bit budget (`0` = unlimited), any fuel on
+/-- **`C01_main_guards_partial`**: whole programs, every 64-bit budget (`0` = unlimited), any fuel on
 either side, against the adapted reference with the **lenient** reading of operand lists
 (`Adapter.lenientOperandLists`, i.e. what the crate does — finding `C01-lenient-lists` — so that the
-`((X) . operands)` form is inside).  The only restrictions of the reference's *domain* are
-`Adapter.noGuards` — a run that applies opcode 36 (softfork guards) is outside — and
-`Adapter.restrictCalls exclCall` — so is a call of an unknown operator inside the region of finding B
-(cost product `base · (multiplier + 1) ≥ 2^64`, where the pre-hard-fork `op_unknown` wraps); the
-operators assigned by later consensus changes (29, 30, 48–61, the 4-byte secp opcodes) are outside
-C01 as before.
+`((X) . operands)` form is inside), **softfork guards included**: opcode 36 is read by both machines
+alike (declared cost: at most 8 bytes, not zero, within the budget in force; a malformed or unknown
+extension charges the declared cost and returns nil), a guard with extension 0 is entered by both
+(`Adapter.softforkGuard`: declared total on the guard stack, `exit_guard` pending, the guarded program
+evaluated at once, `GUARD_COST` added; inside it the declared total is the budget, the operator set is
+the classic one, nested guards are allowed; at `exit_guard` both require the exact cost, else
+"softfork specified cost mismatch", and replace the value by nil).
+
+The only restrictions of the reference's *domain* (`coreAd`, each a named definition in
+`Spec/Ref.lean`):
+* `Adapter.guardsOf (· == 0)` — entering a guard of another *known* extension (under default flags only
+  extension 1, the keccak set) is outside: opcode 62 is not a classic operator;
+* `Adapter.restrictCalls exclCall` — a call of an unknown operator inside the region of finding B (cost
+  product `base · (multiplier + 1) ≥ 2^64`, where the pre-hard-fork `op_unknown` wraps) is outside;
+* `Adapter.newOperators` (as in the REF stream) — the operators assigned by later consensus changes
+  (29, 30, 48–61, the 4-byte secp opcodes) are outside C01.
 Whenever both machines terminate they succeed with the same cost and the same tree, or both fail —
 unless the reference left that domain or hit the adapted stack limit (`BadR`), or the model hit an
 allocator or stack limit or an operator it does not implement (`BadM`).
 
-Proof: a simulation between the two op-stack machines (`Lemmas/RefSim.lean`): both are described by
-the same continuation (a list of call frames) in one of two positions; "value produced"
-(`Cons` / `cons`, end of the run), "next operand" (`SwapEval` / `swap; eval`, through `eval_agree`:
-paths by `path_eq`, quotations, operator-call entry with the nil-terminator check, the `((X) …)`
-form) and "apply" (`(a P E)`: `apply; eval` against `apply_op`'s immediate `eval_pair`; ordinary
-operators: the two dispatch tables against each other, `dispatch_agree`, where the `ref_op_eq_*`
-theorems and the unknown-operator rule plug in; the operators of the model do not look at the
-terminator of their argument list, `Lemmas/RefTerm.lean`).
+Proof: a lockstep simulation between the two op-stack machines (`Lemmas/RefSim.lean`): both are
+described by the same continuation — a list of call frames and guard frames — in one of two positions;
+"value produced" (`Cons` / `cons`, `ExitGuard` / `exit_guard`, end of the run), "next operand"
+(`SwapEval` / `swap; eval`, through `eval_agree`: paths by `path_eq`, quotations, operator-call entry
+with the nil-terminator check, the `((X) …)` form) and "apply" (`(a P E)`: `apply; eval` against
+`apply_op`'s immediate `eval_pair`; opcode 36: `softfork_agree`; ordinary operators: the two dispatch
+tables against each other, `dispatch_agree`, where the `ref_op_eq_*` theorems and the unknown-operator
+rule plug in; the operators of the model do not look at the terminator of their argument list,
+`Lemmas/RefTerm.lean`).  The budget in force on both sides is the innermost guard's declared total
+(`effMax` / `effective_max`), else the program's budget.
 
-What is missing for the full `StatementFor true`: softfork guards (opcode 36 with a known
-extension: the guard stack on both sides, `exit_guard`, the guard's budget). -/
-theorem C01_main_lenient_partial (prog env : Tree) (budget fuel fuel' : Nat) (hb : budget < 2 ^ 64)
+This subsumes the former `C01_main_lenient_partial` (domain `Adapter.noGuards`: every run applying
+opcode 36 outside).  What is missing for the full `StatementFor true`: nothing inside the classic
+operator set except the region of finding B — see `C01_statement_fragment` for the restatement. -/
+theorem C01_main_guards_partial (prog env : Tree) (budget fuel fuel' : Nat) (hb : budget < 2 ^ 64)
     (ro : Res) (mo : Except Err (Nat × Val × Ctr))
     (hr : Ref.runWith coreAd fuel' prog env (Adapter.u64Budget budget) = some ro)
     (hm : modelRun fuel prog env budget = some mo) : RunOut ro mo :=
   core_run_agree prog env budget fuel fuel' hb ro mo hr hm
+
+/-- the run stays inside the domain of `C01_main_guards_partial`: no guard of an extension other than 0
+is entered, no unknown operator is called inside the region of finding B (and no later-assigned
+operator is applied) -/
+def InDomain (fuel : Nat) (prog env : Tree) (budget : Nat) : Prop :=
+  Ref.runWith coreAd fuel prog env (Adapter.u64Budget budget) ≠ some (.error .outOfDomain)
+
+/-- **the bridge**: the domain restrictions do nothing but end a run with `outOfDomain`
+(`Lemmas/RefNarrow.lean`) — inside the domain the run of `coreAd` *is* the run of the REF stream's
+reference `adaptedRun true` -/
+theorem C01_domain_bridge (fuel : Nat) (prog env : Tree) (budget : Nat) (hdom : InDomain fuel prog env budget) :
+    Ref.runWith coreAd fuel prog env (Adapter.u64Budget budget) = adaptedRun true fuel prog env budget :=
+  coreAd_bridge fuel prog env budget hdom
+
+/-- in general: under the restricted adapters a run is the unrestricted run or ends in `outOfDomain` -/
+theorem C01_domain_only_narrows (fuel : Nat) (prog env : Tree) (budget : Nat) :
+    Ref.runWith coreAd fuel prog env (Adapter.u64Budget budget) = adaptedRun true fuel prog env budget ∨
+    Ref.runWith coreAd fuel prog env (Adapter.u64Budget budget) = some (.error .outOfDomain) :=
+  coreAd_narrows.runWith fuel prog env (Adapter.u64Budget budget)
+
+/-- **`C01_statement_fragment`**: `C01_main_guards_partial` restated in the shape of
+`StatementFor true` — model run against `adaptedRun true` (the adapters of the REF stream), conclusion
+`SameOutcome` — with the remaining exclusions as explicit hypotheses: 64-bit budget, the run is
+`InDomain`, the reference did not hit the adapted stack limit (the two machines count stack entries
+differently: `(operand . env)` pairs against a separate environment stack), the model did not stop at
+an allocator limit or one of its two stack limits. -/
+theorem C01_statement_fragment (prog env : Tree) (budget fuel fuel' : Nat) (hb : budget < 2 ^ 64)
+    (mo : Except Err (Nat × Val × Ctr)) (ro : Res)
+    (hm : modelRun fuel prog env budget = some mo)
+    (hr : adaptedRun true fuel' prog env budget = some ro)
+    (hdom : InDomain fuel' prog env budget)
+    (hstack : ro ≠ .error .stack)
+    (hlim : ∀ e, mo = .error e → ¬ BadM (.err e)) : SameOutcome mo ro := by
+  have hbr := coreAd_bridge fuel' prog env budget hdom
+  have hr' : Ref.runWith coreAd fuel' prog env (Adapter.u64Budget budget) = some ro := by rw [hbr]; exact hr
+  have hout := core_run_agree prog env budget fuel fuel' hb ro mo hr' hm
+  cases ro with
+  | ok r =>
+    obtain ⟨c, t⟩ := r
+    cases mo with
+    | ok r' =>
+      obtain ⟨c', v, ctr⟩ := r'
+      exact ⟨hout.1.symm, hout.2⟩
+    | error e' => exact absurd hout (hlim e' rfl)
+  | error e =>
+    cases mo with
+    | ok r' =>
+      rcases hout with h | h
+      · subst h; exact absurd hr' hdom
+      · subst h; exact absurd rfl hstack
+    | error e' => trivial
 
 /-- the witnesses of finding `C01-lenient-lists` are inside this domain (and agree) -/
 example : Ref.runWith coreAd 100 witness1 (.atom []) (Adapter.u64Budget 0) = some (.ok (189, .atom [])) := by rfl
@@ -289,6 +354,35 @@ example : Ref.runWith coreAd 100
     (.pair (.atom [16]) (.pair (.pair (.atom [1]) (.atom [2]))
       (.pair (.pair (.atom [18]) (.pair (.atom [1]) (.pair (.pair (.atom [1]) (.atom [3])) (.atom [])))) (.atom []))))
     (.atom [7]) (Adapter.u64Budget 0) = some (.ok (1840, .atom [23])) := by rfl
+
+/-- `(softfork (q . cost) (q . ext) (q . prog) (q . ()))` -/
+def guardProgram (cost ext : Bytes) (prog : Tree) : Tree :=
+  Tree.ofList [.atom [36], .pair (.atom [1]) (.atom cost), .pair (.atom [1]) (.atom ext),
+    .pair (.atom [1]) prog, .pair (.atom [1]) (.atom [])]
+
+set_option maxRecDepth 8000 in
+/-- guards are inside the domain: `(softfork (q . 160) (q . 0) (q . (q . 1)) (q . ()))` declares the
+right cost (quote 20 + guard 140) and evaluates to nil at cost 241 on both sides … -/
+example : Ref.runWith coreAd 100 (guardProgram [0, 160] [] (.pair (.atom [1]) (.atom [1]))) (.atom [])
+    (Adapter.u64Budget 0) = some (.ok (241, .atom [])) := by rfl
+example : (modelRun 100 (guardProgram [0, 160] [] (.pair (.atom [1]) (.atom [1]))) (.atom []) 0).map
+    (fun r => r.map (fun x => (x.1, x.2.1.erase))) = some (.ok (241, .atom [])) := by rfl
+set_option maxRecDepth 8000 in
+/-- … a wrong declaration fails on both sides at `exit_guard` … -/
+example : Ref.runWith coreAd 100 (guardProgram [0, 161] [] (.pair (.atom [1]) (.atom [1]))) (.atom [])
+    (Adapter.u64Budget 0) = some (.error .softfork) := by rfl
+set_option maxRecDepth 8000 in
+/-- … guards nest (the outer one declares 241 + 140 = 381 = `0x017d`) … -/
+example : Ref.runWith coreAd 100
+    (guardProgram [1, 125] [] (guardProgram [0, 160] [] (.pair (.atom [1]) (.atom [1])))) (.atom [])
+    (Adapter.u64Budget 0) = some (.ok (462, .atom [])) := by rfl
+set_option maxRecDepth 8000 in
+/-- … and a guard with extension 1 (the keccak set) is the named exclusion `Adapter.guardsOf` -/
+example : Ref.runWith coreAd 100 (guardProgram [0, 160] [1] (.pair (.atom [1]) (.atom [1]))) (.atom [])
+    (Adapter.u64Budget 0) = some (.error .outOfDomain) := by rfl
+set_option maxRecDepth 8000 in
+example : adaptedRun true 100 (guardProgram [0, 160] [1] (.pair (.atom [1]) (.atom [1]))) (.atom []) 0
+    = some (.ok (241, .atom [])) := by rfl
 
 example : OneStep (.atom [0, 0, 11]) := trivial
 example : OneStep (.pair (.atom [1]) (.atom [7])) := rfl
